@@ -4,6 +4,9 @@ proof: lean/CashewsVerif/Props/C11.lean (capacity bound, store order = recency o
        victim rule, purge sweeps order-neutral, recently-used keys still held) about the `Mem` model of C01.
 tie:   generated histories (8 keys, capacities 1..6, TTLs, time advances, purge task on/off, raw backend and
        Cache facade) run on the real `Memory` under the virtual clock and on the model driver (driver_c01);
+       the real purge task is observed on the store (whatever a task other than the harness's does to it at one
+       instant, with no command in between, is one `purge` line with the content it left - memhist.py), and
+       judged like any command: a key it removes must have been expired;
        after EVERY command: result, the physically held keys in `OrderedDict` order, and the harness's own use
        log are compared with the model's answer, its store order and its ghost use log.
        Verdicts: the property oracle looks only at the two statements of C11 on the implementation's own
@@ -32,8 +35,14 @@ TRUSTED = [
     "Lean 4.33.0 kernel; axioms of every theorem audited to be within {propext, Classical.choice, Quot.sound}",
     "hand-written model lean/CashewsVerif/Model/Mem.lean (+ ghost bookkeeping Model/Lru.lean, proved erasable) of "
     "cashews/backends/memory.py, tied to the code by this run's history correspondence (results, store order, use log)",
-    "harness: virtual clock (harness/vtime.py), canonicalisation, purge-sweep splicing (harness/memhist.py), "
+    "harness: virtual clock (harness/vtime.py), canonicalisation, observation of the purge task on the store itself "
+    "(harness/memhist.py: `ObservedMemory.store` reports every mutation with the task that made it; the background mutations of one "
+    "instant not separated by a command are one `purge` line carrying the store content they left), "
     "store snapshots and the Python property oracle (harness/lruhist.py)",
+    "the purge sweep is atomic with respect to commands (no suspension point inside Memory.get; asyncio does not preempt): assumed by "
+    "the model's single `purge` operation, explicit in Model/Sweep.lean / theorem atomic_sweeps_are_purge_ops; not proved - exercised by "
+    "commands landing at the very instant of a purge tick on either side of the purge task's step (interesting states "
+    "command_at_the_instant_of_a_sweep_after_it, sweep_at_the_instant_of_a_command_after_it; sweep_split_by_commands stays absent)",
     "the notion of 'use' (docstring of harness/lruhist.py = header of Model/Lru.lean): a failed only-if-absent set on "
     "a live key counts as an existence test, get_expire and purge sweeps do not count",
     "collections.OrderedDict (move_to_end, popitem) is modelled by an association list, not verified",
@@ -74,6 +83,8 @@ def trace_of(rec, answers):
         a = answers[1 + 3 * i: 4 + 3 * i]
         out.append({"line": r["line"], "impl": r["out"], "impl_store": [k for k, _ in r["snap"]], "impl_count": r["count"],
                     "model": a[0], "model_store": a[1], "model_uselog": a[2]})
+        if r.get("bg_ops"):
+            out[-1]["purge_task_did"] = [f"{o} {k}" for o, k in r["bg_ops"]]
     return out
 
 
@@ -100,7 +111,8 @@ def report(chk: Check, cfg, cap, ops, origin, viol, diff):
     if viol2:
         i, text = viol2[0]
         chk.violation(f"in-memory backend (size={cap}, config {cfg}) breaks C11 at step {i}: {text}", replay,
-                      signature="capacity" if text.startswith("holds") else "victim-rule")
+                      signature="capacity" if text.startswith("holds") else
+                      "purge-removed-live-key" if text.startswith("the purge task") else "victim-rule")
     elif diff2 is not None:
         chk.violation(
             f"correspondence broken ({diff2[1]}): implementation differs from the Mem model at step {diff2[0]}: {diff2[2]} "
@@ -166,7 +178,11 @@ def run(chk: Check) -> int:
         cfg = CFGS[i % len(CFGS)]
         cap = CAPS[(i // len(CFGS)) % len(CAPS)]
         maxlen = 40 if i % 3 else 14
-        cases.append((f"gen:{i}", cfg, cap, memhist.gen_history(chk.rng, NKEYS, maxlen, WEIGHTS)))
+        # purge task on: every other history is phase-locked to the purge ticks (see memhist.PHASE_ADVS)
+        locked = bool(memhist.CONFIGS[cfg]["purge"]) and (i // (len(CFGS) * len(CAPS))) % 2 == 1
+        cases.append((f"gen:{i}", cfg, cap, memhist.gen_history(
+            chk.rng, NKEYS, maxlen, WEIGHTS, advs=memhist.PHASE_ADVS if locked else None,
+            ttls=memhist.PHASE_TTLS if locked else None)))
     BATCH = 100
     stop = False
     for b in range(0, len(cases), BATCH):
@@ -179,7 +195,7 @@ def run(chk: Check) -> int:
                 name = w[0] + ("_" + w[4] if w[0] == "set" else "")
                 hist[name] = hist.get(name, 0) + 1
             for k, v in rstats.items():
-                if "expired_unpurged" in k or k == "purge_sweeps_spliced":
+                if "expired_unpurged" in k or "sweep" in k or k == "unattributed_store_change":
                     st.setdefault(k, v)
             for k, v in st.items():
                 interesting[k] = interesting.get(k, 0) + 1
@@ -224,6 +240,9 @@ def run(chk: Check) -> int:
         "distinct_nontrivial": len(distinct),
         "rule": "generated: histories of 1..40 commands over 8 keys from VERIF_SEED, round-robin over configurations "
                 + ",".join(CFGS) + " and capacities 1..6, compared after every command (result, store order, use log); "
+                "with the purge task on every other round of histories is phase-locked to the purge ticks (time advances are multiples "
+                "of the purge interval or idle yields), so that commands land at the instant of a tick on either side of the purge "
+                "task's step; "
                 "a case is non-trivial iff at least one capacity eviction happened in it; distinct = distinct (config, "
                 "capacity, op list); the enumerated histories are counted in `evaluations` and described under `exhaustive_part`",
         "samples": samples,
